@@ -16,7 +16,7 @@ from textwrap import dedent
 from types import TracebackType
 
 from .selector import Element, check_element
-from .tags import Tag, TagSet, enter_tag, exit_tag, get_tags
+from .tags import Tag, TagSet, enter_tag, exit_tag, get_tags, match_tag
 from .utils import ABSENT, DictPile
 
 _IDX = count()
@@ -266,10 +266,20 @@ class PteraTransformer(NodeTransformer):
         self.to_instrument = to_instrument
         self.result = self.visit_FunctionDef(tree, root=True)
 
-    def should_instrument(self, varname, ann=None):
+    def should_instrument(self, varname, ann=None, keyed=False):
         evaluated_ann = self._evaluate(ann)
         if any(
             check_element(el, varname, evaluated_ann)
+            for el in self.to_instrument
+        ):
+            return True
+        if keyed and any(
+            # A capture named x.attr or x[index] is about an assignment to an
+            # attribute or item of the variable x
+            el.name is not None
+            and re.split(r"[.\[]", el.name)[0] == varname
+            and el.name != varname
+            and match_tag(el.category, evaluated_ann)
             for el in self.to_instrument
         ):
             return True
@@ -321,7 +331,8 @@ class PteraTransformer(NodeTransformer):
 
     def _interact(self, *args, force=False):
         varname, key, ann, value, overridable = args
-        if not force and not self.should_instrument(varname, ann):
+        keyed = not isinstance(key, ast.Constant) and key is not None
+        if not force and not self.should_instrument(varname, ann, keyed):
             return value if isinstance(value, ast.AST) else ast.Constant(value)
 
         args = [
@@ -433,7 +444,7 @@ class PteraTransformer(NodeTransformer):
             if (
                 not expression
                 and not isinstance(slc, (ast.Constant, ast.Name))
-                and self.should_instrument(target.value.id, ann)
+                and self.should_instrument(target.value.id, ann, True)
             ):
                 # The index is needed twice (to report it and to store): it
                 # must be evaluated once, and after the value, as Python does
